@@ -41,7 +41,8 @@ def run_one(lz4c, b, d, case):
     wd = os.path.join(d, "run-%d" % case["id"])
     os.makedirs(wd)
     data = case["data"]
-    name = "in%d.bin" % case["id"]
+    # names whose last characters are in the set {'.', 'l', 'z', '4'} as well (a suffix is not a character set)
+    name = ["in%d.bin", "in%d.small", "movie%d.mp4", "x%d.l", "data%d.z", "in%d.lz4", "final%d."][case["id"] % 7] % case["id"]
     fpath = os.path.join(wd, name)
     open(fpath, "wb").write(data)
     os.chmod(fpath, case["mode"])
